@@ -5,29 +5,6 @@ import GSProofs.Lemmas.MsgQueueLive4
 namespace GS.MQ
 open GS.Alloc GS.Temporal
 
-/-- the shutdown drain empties the queue -/
-theorem drain_builders_nil (pick : Pick) : ∀ (fuel : Nat) (s : State), s.builders.length ≤ fuel →
-    (State.drain pick fuel s).builders = []
-  | 0, s, h => by
-    have : s.builders = [] := List.length_eq_zero_iff.mp (Nat.le_zero.mp h)
-    exact this
-  | fuel + 1, s, h => by
-    obtain ⟨e1, e2⟩ := extract_shape s
-    unfold State.drain
-    cases he : s.extract with
-    | mk s' om =>
-      cases om with
-      | none => exact (e1 s' he).1
-      | some m =>
-        obtain ⟨pre, b, hb, _⟩ := e2 s' m he
-        simp only
-        apply drain_builders_nil pick fuel
-        rw [(closeTopic_frame _ _).builders, (publishError_shape pick s' m).1]
-        have h1 := scrubAll_length m.streams s'.builders
-        have h2 : s'.builders.length < s.builders.length := by
-          rw [hb, List.length_append, List.length_cons]; omega
-        omega
-
 theorem cnt_le_of_mem_sorted {t : Nat} {pre rest : List Builder} {b : Builder}
     (hs : (topicsOf (pre ++ b :: rest)).Pairwise (· < ·))
     (hpre : ∀ x ∈ pre, x.empty = true)
@@ -153,9 +130,9 @@ theorem run_live (pick : Pick) {t : Nat} {s : State} (h : LiveP t s) (pw : Bool)
       subst hd
       rw [if_neg hc] at hn' ⊢
       simp only [if_true] at hn' ⊢
-      have hnil := drain_builders_nil pick builders.length (⟨peer, maxRetries, builders, nextTopic, false, true, sender, .idle, closedStreams, waiters,
+      have hnil := drain_builders_nil pick builders.length (⟨peer, maxRetries, builders, nextTopic, true, true, sender, .idle, closedStreams, waiters,
           nextTicket, topics, pubClosed, alloc, log⟩ : State) (Nat.le_refl _)
-      generalize State.drain pick builders.length (⟨peer, maxRetries, builders, nextTopic, false, true, sender, .idle, closedStreams, waiters,
+      generalize State.drain pick builders.length (⟨peer, maxRetries, builders, nextTopic, true, true, sender, .idle, closedStreams, waiters,
           nextTicket, topics, pubClosed, alloc, log⟩ : State) = s1 at hnil hn' ⊢
       have hbn : ({ (if s1.sender = true then s1.emit [Event.senderClosed] else s1) with pc := Pc.exiting } : State).builders = [] := by
         show (if s1.sender = true then s1.emit [Event.senderClosed] else s1).builders = []
